@@ -64,7 +64,7 @@ public:
       bufferEnd = bufferStart;
       return *this;
     }
-    Memory::copy(buffer, other.bufferStart, size);
+    Memory::move(buffer, other.bufferStart, size); // other may be this buffer (or be attached to its bytes)
     bufferStart = buffer;
     bufferEnd = buffer + size;
     *bufferEnd = 0;
@@ -84,7 +84,7 @@ public:
       bufferEnd = bufferStart;
       return;
     }
-    Memory::copy(buffer, data, size);
+    Memory::move(buffer, data, size); // data may point into this buffer
     bufferStart = buffer;
     bufferEnd = buffer + size;
     *bufferEnd = 0;
